@@ -135,7 +135,7 @@ def _every_identifier_checked(ctx, nids: ClassInfo) -> Optional[List[str]]:
 
 
 def _lookup_semantics(ctx, decl_fields: List[str]) -> Set[str]:
-    """find_fqn / find_any interpreted (dznverif.scenario, E6) on a small universe: a FileContents that holds, spread over its
+    """find_fqn / find_any interpreted (dznverif.scenario, E7) on a small universe: a FileContents that holds, spread over its
     declaration containers (and, as decoys, over filenames / imports), one declaration for every fully qualified name of one
     to three identifiers over {a, b} - two of them twice, in different containers - looked up with every name of one or two
     identifiers from every calling scope of zero to two identifiers (none as well).  Expected (the statement of C14):
@@ -579,7 +579,7 @@ def _valid_ids_rule(ctx, mut: Mutations) -> Optional[Set[str]]:
             run.violation('C14.valid-ids', post.module.name, post.qualname, c,
                           f're.{fn_name} does not anchor the end of the identifier exactly ("$" also matches before a '
                           f'trailing newline; search matches anywhere): invalid identifiers are accepted', node=c)
-        # applied to every identifier, failure raises: decided by interpreting the constructor (E6) on lists of one to three
+        # applied to every identifier, failure raises: decided by interpreting the constructor (E7) on lists of one to three
         # strings with a malformed one at every position; the shape test below only when that is not possible
         sem_every = _every_identifier_checked(ctx, nids)
         if sem_every is not None:
